@@ -233,7 +233,10 @@ type c12Plan struct{}
 
 func (y *c12L2Sys) Root() *c12L2State {
 	w := world.NewL2(world.L2Options{
-		Accounts:   map[string]sdk.Coins{"admin": nil, "admin2": nil, "e1": nil, "e2": nil, "stranger": nil, "o1": nil, "o2": nil, "o3": nil, "alice": nil},
+		// the admins hold funds, so that a foreign-signed inner message (a bank send out of the admin's
+		// account) would really succeed if the signer rule let it through
+		Accounts: map[string]sdk.Coins{"admin": sdk.NewCoins(sdk.NewInt64Coin("umin", 10)), "admin2": sdk.NewCoins(sdk.NewInt64Coin("umin", 10)),
+			"e1": nil, "e2": nil, "stranger": nil, "o1": nil, "o2": nil, "o3": nil, "alice": nil},
 		Executors:  []string{"e1"},
 		Validators: [][2]string{{"o1", "k1"}},
 		Params:     func(p *opchildtypes.Params) { p.MaxValidators = 5 },
@@ -479,6 +482,9 @@ func (y *c12L2Sys) Check(s *c12L2State) *engine.Violation {
 		{"[good,bad-signer]", []sdk.Msg{goodMsg, badSigner}, false},
 		{"[good,failing]", []sdk.Msg{goodMsg, failing}, false},
 		{"[bad-signer,good]", []sdk.Msg{badSigner, goodMsg}, false},
+		{"[good,good,bad-signer]", []sdk.Msg{goodMsg, goodMsg, badSigner}, false},
+		{"[good,bad-signer,good]", []sdk.Msg{goodMsg, badSigner, goodMsg}, false},
+		{"[bad-signer]", []sdk.Msg{badSigner}, false},
 		{"[failing,good]", []sdk.Msg{failing, goodMsg}, false},
 	} {
 		y.probes.Add(1)
